@@ -141,6 +141,8 @@ pub fn select_connection(
     current_time_ms: u64,
     enable_quality: bool,
 ) -> Option<usize> {
+    #[cfg(feature = "verif-hooks")]
+    verif_trace::clear();
     // First pass: discover whether at least one un-gated connection
     // can carry the packet. The classifier marks links weak when their
     // RTT busts the chosen delay tier (sustained, not a single blip),
@@ -200,10 +202,21 @@ pub fn select_connection(
         let base = c.get_score() as f64 * c.phase_weight();
         let cap_mult = cc_soft_cap_multiplier(c);
         let score = if !enable_quality {
+            #[cfg(feature = "verif-hooks")]
+            verif_trace::record(i, c.get_score(), c.phase_weight(), None, cap_mult, gate_mult);
             base * cap_mult * gate_mult
         } else {
             // Use cached quality multiplier (recalculates every 50ms)
             let quality_mult = c.get_cached_quality_multiplier(current_time_ms);
+            #[cfg(feature = "verif-hooks")]
+            verif_trace::record(
+                i,
+                c.get_score(),
+                c.phase_weight(),
+                Some(quality_mult),
+                cap_mult,
+                gate_mult,
+            );
             let final_score = base * quality_mult * cap_mult * gate_mult;
 
             // Log quality issues and recoveries for debugging (cold path)
@@ -211,6 +224,9 @@ pub fn select_connection(
 
             final_score
         };
+
+        #[cfg(feature = "verif-hooks")]
+        verif_trace::set_score(score);
 
         // Track current connection's score for hysteresis
         if Some(i) == last_idx {
@@ -265,6 +281,69 @@ pub fn select_connection(
     }
 
     best_idx
+}
+
+/// Per-call score-factor trace for out-of-tree runtime verification harnesses.
+/// Thread-local; cleared on entry to [`select_connection`]. Records only, no
+/// behaviour.
+#[cfg(feature = "verif-hooks")]
+pub mod verif_trace {
+    use std::cell::RefCell;
+
+    #[derive(Clone, Copy, Debug)]
+    pub struct ScoreFactors {
+        pub idx: usize,
+        pub base_score: i32,
+        pub phase_weight: f64,
+        /// `None` when quality scoring is off for this call.
+        pub quality: Option<f64>,
+        pub soft_cap: f64,
+        pub gate: f64,
+        pub score: f64,
+    }
+
+    thread_local! {
+        static TRACE: RefCell<Vec<ScoreFactors>> = const { RefCell::new(Vec::new()) };
+    }
+
+    pub(super) fn clear() {
+        TRACE.with(|t| t.borrow_mut().clear());
+    }
+
+    pub(super) fn record(
+        idx: usize,
+        base_score: i32,
+        phase_weight: f64,
+        quality: Option<f64>,
+        soft_cap: f64,
+        gate: f64,
+    ) {
+        TRACE.with(|t| {
+            t.borrow_mut().push(ScoreFactors {
+                idx,
+                base_score,
+                phase_weight,
+                quality,
+                soft_cap,
+                gate,
+                score: f64::NAN,
+            })
+        });
+    }
+
+    pub(super) fn set_score(score: f64) {
+        TRACE.with(|t| {
+            if let Some(last) = t.borrow_mut().last_mut() {
+                last.score = score;
+            }
+        });
+    }
+
+    /// Factors of every link scored by the most recent `select_connection` call
+    /// on this thread, in scoring order.
+    pub fn last() -> Vec<ScoreFactors> {
+        TRACE.with(|t| t.borrow().clone())
+    }
 }
 
 /// Log quality state for debugging (cold path, marked for optimizer hints)
